@@ -4,6 +4,7 @@ import (
 	"context"
 	"errors"
 	"fmt"
+	"math/rand"
 	"sort"
 	"strings"
 	"time"
@@ -11,13 +12,15 @@ import (
 	"github.com/ClickHouse/ch-go"
 
 	"verif/internal/core"
+	"verif/internal/ref"
+	"verif/internal/simnet"
 )
 
 func init() {
 	Registry["C04"] = Spec{
 		Fn:          c04,
 		Level:       "fault_enumeration",
-		Rule:        "scenarios {select, select+telemetry, insert with schema exchange, streamed insert (2-3 rounds + tail), LZ4/ZSTD/None variants, external data} x fault points taken from a fault-free pilot run of each scenario: server stream cut (EOF and reset) after every byte k (all k for streams <= 512 B, else 256 sampled) ; client write error after every byte k of the query's bytes; every callback invocation failing (with a plain error, and with an error that wraps a *ch.Exception obtained elsewhere); an exception injected at every gate (before/after each client write, before each server packet, inside each callback, at each internal hook point: query/block encoded/flushed, packet code read, cancel-watch); unknown packet code and each well-formed but unexpected packet kind before each server packet; exception together with a write error at an unrelated byte, and an exception consumed while a write is in flight that then fails after 0, 1 or 7 more bytes. Post-state oracle after Do returned an error: the client is closed (then Do/Ping return ErrClosed without any call on the connection), or it is open and the client byte stream is at a packet boundary, a follow-up Ping writes exactly 04 and completes. Do must return. Non-trivial = the planned fault fired and Do returned an error; distinct = (scenario, fault kind, fault point)",
+		Rule:        "scenarios {select, select+telemetry, insert with schema exchange, streamed insert (2-3 rounds + tail), LZ4/ZSTD/None variants, external data} x fault points taken from a fault-free pilot run of each scenario: server stream cut (EOF and reset) after every byte k (all k for streams <= 512 B, else 256 sampled) ; client write error after every byte k of the query's bytes; every callback invocation failing (with a plain error, and with an error that wraps a *ch.Exception obtained elsewhere); an exception injected at every gate (before/after each client write, before each server packet, inside each callback, at each internal hook point: query/block encoded/flushed, packet code read, cancel-watch); unknown packet code and each well-formed but unexpected packet kind before each server packet; an input callback failing while the server has gone silent in the middle of a packet; exception together with a write error at an unrelated byte, and an exception consumed while a write is in flight that then fails after 0, 1 or 7 more bytes. Post-state oracle after Do returned an error: the client is closed (then Do/Ping return ErrClosed without any call on the connection), or it is open and the client byte stream is at a packet boundary, a follow-up Ping writes exactly 04 and completes. Do must return. Non-trivial = the planned fault fired and Do returned an error; distinct = (scenario, fault kind, fault point)",
 		Assumptions: []string{"a finite read timeout (100 ms) so that a cancelled receive loop ends; exceptions are injected at packet boundaries of the server stream and nothing is sent after them, as a server does"},
 		MinDistinct: 300,
 	}
@@ -87,6 +90,20 @@ func c04(r *core.Run) {
 		for i, g := range gates {
 			if i%3 == 0 && cliBytes > 2 {
 				plans = append(plans, &fault{Kind: "exception+write-error", Gate: g, K: (int64(i) * 7) % cliBytes})
+			}
+		}
+		// the sender fails (input callback) while the receiver is stuck in the middle of a packet of
+		// a server that went silent: Do must still return (the cancel-watch closes the connection)
+		if sc.Insert && sc.Stream > 0 && !sc.EndsExc {
+			hdr := int64(len(simnet.PacketData(54460, ref.ServerDataCode, scnBlock(rand.New(rand.NewSource(1)), 0), sc.Comp != ch.CompressionDisabled, ref.MethodLZ4)))
+			for _, g := range gates {
+				if strings.HasPrefix(g, "cb:input#") && g != "cb:input#0" {
+					for _, k := range []int64{hdr + 1, hdr + 2, hdr + 7, (hdr + srvBytes) / 2} {
+						if k > hdr && k < srvBytes {
+							plans = append(plans, &fault{Kind: "stall+callback-fail", Gate: g, K: k})
+						}
+					}
+				}
 			}
 		}
 		// the scenario's own server exception as the only failure: the client stays open and usable
@@ -265,7 +282,7 @@ func c04One(r *core.Run, sc scn, seed int64, f *fault) {
 		r.Count("injection_after_query_completed", 1)
 		return
 	}
-	if perr != nil && f.Kind != "corrupt" && f.Kind != "cut" && f.Kind != "write-error" && f.Kind != "exception+write-error" && f.Kind != "exception-during-write" && f.Kind != "drop-connection" {
+	if perr != nil && f.Kind != "corrupt" && f.Kind != "cut" && f.Kind != "write-error" && f.Kind != "exception+write-error" && f.Kind != "exception-during-write" && f.Kind != "drop-connection" && f.Kind != "stall+callback-fail" {
 		// the transport is healthy in these plans: an open client must be usable
 		fail("open-client-unusable:"+f.Kind, fmt.Sprintf("client left open after error %q but the follow-up Ping failed: %v (read side not at a packet boundary)", firstLineOf(fmtErr(o.Err)), perr))
 	}
